@@ -162,7 +162,9 @@ func cmdCheck(prop, tier string) int {
 	for _, o := range obls {
 		byKind[o.Kind]++
 		if o.Res != nil {
-			solverTime += o.Res.TimeS
+			if o.Txt == "" || !distinct[hashText(o.Txt)] {
+				solverTime += o.Res.TimeS
+			}
 			if o.Res.Cross != "" {
 				machineryErr = true
 				fmt.Printf("MACHINERY-ERROR: solver disagreement on %s: %s\n", o.Name, o.Res.Cross)
@@ -186,6 +188,20 @@ func cmdCheck(prop, tier string) int {
 		}
 		if !matched {
 			failed = append(failed, o)
+		}
+	}
+	if *flagVerbose {
+		seenT := map[string]bool{}
+		var slow []*Obligation
+		for _, o := range obls {
+			if o.Res != nil && o.Txt != "" && !seenT[hashText(o.Txt)] {
+				seenT[hashText(o.Txt)] = true
+				slow = append(slow, o)
+			}
+		}
+		sort.Slice(slow, func(i, j int) bool { return slow[i].Res.TimeS > slow[j].Res.TimeS })
+		for i := 0; i < len(slow) && i < 25; i++ {
+			fmt.Printf("SLOW %.2fs %-12s %-14s %s\n", slow[i].Res.TimeS, slow[i].Tier, slow[i].Res.Backend, slow[i].Name)
 		}
 	}
 	sort.Slice(failed, func(i, j int) bool { return failed[i].Name < failed[j].Name })
